@@ -12,3 +12,20 @@ fn full_calc_word_mem_pos() {
     let slot: u64 = if df == 0 { 16 } else { 10 };
     assert!(calc_current_word_mem_pos(idx as usize, df, pos) == pos + 64 + idx as u64 * slot, "[C07][C19] view word offset = packet offset + 64 + index x slot size");
 }
+
+use alice_protocol_reader::prelude::*;
+
+// @harness id=full_view_trigger_strings props=C19,C14,C04 kind=full tier=quick fns=trigger_type_string_from_int,rdh_trigger_type_as_string,rdh_detector_field_lane_status_as_string,det_field_util::lane_fatal,det_field_util::lane_error,det_field_util::lane_warning,det_field_util::lane_missing_data
+#[kani::proof]
+#[kani::unwind(10)]
+fn full_view_trigger_strings() {
+    let b: [u8; 64] = kani::any();
+    let rdh = RdhCru::from_buf(&b[..]).unwrap();
+    let tt = u32::from_le_bytes([b[32], b[33], b[34], b[35]]);
+    let e = if tt & (1 << 9) != 0 { "SOC  " } else if tt & (1 << 7) != 0 { "SOT  " } else if tt & (1 << 1) != 0 { "HB   " } else if tt & (1 << 4) != 0 { "PhT  " } else { "Other" };
+    assert!(&*trigger_type_string_from_int(tt) == e, "[C19][C14] run/RDH trigger description: SOC, SOT, HB, PhT, else other");
+    assert!(&*rdh_trigger_type_as_string(&rdh) == e, "[C19] RDH trigger description uses the RDH trigger type");
+    let df = u32::from_le_bytes([b[48], b[49], b[50], b[51]]);
+    let l = if df & 0b1000 != 0 { "Fatal  " } else if df & 0b100 != 0 { "Error  " } else if df & 0b10 != 0 { "Warning" } else if df & 0b1 != 0 { "Missing" } else { "-      " };
+    assert!(&*rdh_detector_field_lane_status_as_string(&rdh) == l, "[C19] detector-field lane status: fatal bit 3, error bit 2, warning bit 1, missing bit 0");
+}
